@@ -135,7 +135,7 @@ structure St where
 
 def note (st : St) (s : String) : St := { st with notes := st.notes ++ [s] }
 def corrFail (st : St) (s : String) : St := note { st with corrOk := false } s
-def judgeFail (st : St) (s : String) : St := note { st with judgeOk := false } s
+def judgeFail (st : St) (s : String) : St := { st with judgeOk := false, notes := s :: st.notes }
 
 /-- model of `decode_ssdp_packet` with the outer cache explicit -/
 def decodeCached (st : St) (data : Bytes) (loc : Option Addr) (src : Addr) (now : Int) :
@@ -230,7 +230,7 @@ def stepOp (st : St) (toks : List String) : St :=
       | some (rl, h) =>
         match CIDict.delLower h lk with
         | some h' => { st with regs := st.regs.set! r (some (rl, h')), lastRes := "ok", dirty := st.dirty.set! r true }
-        | none => { st with lastRes := "KeyError" }
+        | none => { st with lastRes := "KeyError", dirty := st.dirty.set! r true }
       | none => corrFail st "dell on empty register"
     | _, _ => corrFail st "bad dell line"
   | ["set", r, k, v] =>
@@ -250,7 +250,7 @@ def stepOp (st : St) (toks : List String) : St :=
       | some (rl, h) =>
         match CIDict.delitem lower h k with
         | some h' => { st with regs := st.regs.set! r (some (rl, h')), lastRes := "ok", dirty := st.dirty.set! r true }
-        | none => { st with lastRes := "KeyError" }
+        | none => { st with lastRes := "KeyError", dirty := st.dirty.set! r true }
       | none => corrFail st "del on empty register"
     | _, _ => corrFail st "bad del line"
   | ["repl", r, ps] =>
@@ -304,6 +304,8 @@ def stepOp (st : St) (toks : List String) : St :=
       | some f =>
         let rl := st.implRl
         let st := { st with fresh := st.fresh.set! r none, snaps := st.snaps.set! r (some io), dirty := st.dirty.set! r false }
+        let st := if f.loc == some { host := ofString "core", port := 0 } || sourceMetaOk io f.src then st
+                  else judgeFail st s!"metadata-not-from-source r{r} src={fmtAddr f.src} obs[{fmtObs io}]"
         let st := match f.built.bind (fun i => st.builts[i]?) with
           | some (sl, hs) =>
             if Gen.C01Ssdp.ssdpPrefixes.contains sl && wfHeaders metaKeys hs then
